@@ -208,7 +208,7 @@ def _bits2bytes_lemma(rep: common.Report) -> None:
 def main(tier: str) -> int:
     rep = common.Report("C05", tier, "other")
     _TIER[0] = tier
-    optnames = ["default"] if tier == "quick" else ["default", "little", "little+asserts"]
+    optnames = ["default", "little"] if tier == "quick" else ["default", "little", "little+asserts", "any+asserts"]
     n_ground = 0
     with common.scratch("nvc05_") as d:
         types, feats = cc.prepare(tier, d, optnames, metadata=True)
